@@ -23,11 +23,41 @@ class _EngineA:
         return engine_a.run_replay(record, known)
 
 
+class _EngineC04:
+    name = 'C04'
+    chunk = 2
+    load_known = _EngineA.load_known
+
+    @staticmethod
+    def run_generated(prop, seed, run, tier, known=None):
+        from . import engine_c04
+        return engine_c04.run_generated(prop, seed, run, tier, known)
+
+    @staticmethod
+    def run_replay(record, known=None):
+        from . import engine_c04
+        return engine_c04.run_replay(record, known)
+
+    @staticmethod
+    def rule(prop):
+        from . import engine_c04
+        return (f"runs 0..{engine_c04.N_CORPUS - 1}: a fixed corpus of {engine_c04.N_CORPUS} operations (every op kind x pairing form, "
+                "successful and naturally failing part-way) for each of which EVERY fault instant is enumerated: an injected "
+                "KeyboardInterrupt / MemoryError at each traced line event of pyplate/*.py and copy.py, and a MemoryError from each "
+                "deepcopy call; remaining runs: seeded Engine-A histories in which 10-40% of the events carry a fault at a seeded "
+                "instant (dry run -> faulted run -> invariants -> recovery). After every fault the fingerprint of every live object, "
+                "every argument and the module config must be unchanged and the fault-free retry must equal the dry run. "
+                "Non-trivial: >= 2 successful state-changing events (or an enumeration); distinct = distinct coverage signatures "
+                "(event tuples incl. fault kind and phase quintile).")
+
+
 def engine_for(prop, record=None):
     if record is not None:
         name = record.get('engine', 'A')
     else:
-        name = 'A' if prop in ENGINE_A else None
+        name = 'A' if prop in ENGINE_A else 'C04' if prop == 'C04' else None
     if name == 'A':
         return _EngineA
+    if name == 'C04':
+        return _EngineC04
     raise KeyError(prop)
